@@ -743,7 +743,7 @@ enum Step {
 enum Rec { Soa(u32), Other, Bad }
 /// qmode: b's' the request's question, b'e' empty question section, b'n' other name, b'b' unparsable question
 #[derive(Clone, Debug)]
-struct XRep { qmode: u8, rcode: u8, recs: Vec<Rec> }
+struct XRep { qmode: u8, rcode: u8, recs: Vec<Rec>, ka: Option<Option<u16>> }   // ka: edns-tcp-keepalive option (None = no OPT record)
 
 fn step_tok(s: &Step) -> String {
     match s {
@@ -839,7 +839,7 @@ async fn run_stream_script(ncallers: usize, idle_ms: u64, steps: Vec<Step>) -> S
     }
     // everything must complete once the peer has fallen silent: one response
     // timeout plus generous slack for a loaded machine
-    let deadline = std::time::Instant::now() + Duration::from_millis(STREAM_TIMEOUT_MS + 4000);
+    let deadline = std::time::Instant::now() + Duration::from_millis(STREAM_TIMEOUT_MS + 10_000);
     loop {
         let done = results.lock().unwrap().iter().enumerate().all(|(k, r)| r.is_some() || !steps.iter().any(|s| matches!(s, Step::Submit(j) if *j == k)));
         if done || std::time::Instant::now() > deadline { break; }
@@ -850,7 +850,7 @@ async fn run_stream_script(ncallers: usize, idle_ms: u64, steps: Vec<Step>) -> S
         if !steps.iter().any(|s| matches!(s, Step::Submit(j) if *j == k)) { continue; }
         rep.checks += 2;
         match &res[k] {
-            None => rep.fails.push(("never_completes", format!("caller {} still waiting {} ms after the peer fell silent", k, STREAM_TIMEOUT_MS + 4000))),
+            None => rep.fails.push(("never_completes", format!("caller {} still waiting {} ms after the peer fell silent", k, STREAM_TIMEOUT_MS + 10_000))),
             Some(Ok(m)) => {
                 rep.ok_deliveries += 1;
                 let q = question(k);
@@ -1000,10 +1000,10 @@ fn part_stream(out: &mut Out, r: &mut Rng, a: &Args) -> (u64, u64) {
     // checks stay meaningful and fast.
     let case = format!("stream timeout-probe set_response_timeout({}ms) silent peer", STREAM_TIMEOUT_MS);
     out.begin(&case);
-    let probe = rt.block_on(run_timeout_probe(STREAM_TIMEOUT_MS + 1500));
+    let probe = rt.block_on(run_timeout_probe(8000));
     out.oracle_case(&case, true, "stream_timeout_probe");
     out.check(probe.is_some(), "response_timeout_config_ignored", &case,
-        &format!("stream::Config::set_response_timeout({} ms) has no effect on a single-response request: still waiting after {} ms", STREAM_TIMEOUT_MS, STREAM_TIMEOUT_MS + 1500));
+        &format!("stream::Config::set_response_timeout({} ms) has no effect on a single-response request: still waiting after {} ms", STREAM_TIMEOUT_MS, 8000));
     let timeouts_work = probe.is_some();
     let n = if a.thorough { 2400 } else { 240 } * a.scale;
     let mut scripts: Vec<(usize, u64, Vec<Step>)> = vec![
@@ -1073,7 +1073,19 @@ fn part_stream(out: &mut Out, r: &mut Rng, a: &Args) -> (u64, u64) {
 // step is followed by a run of yields (no timers involved: the response timeout
 // is 10 s), so each event is fully processed before the next one is issued.
 
-async fn quiesce() { for _ in 0..64 { tokio::task::yield_now().await; } }
+async fn quiesce() { for _ in 0..256 { tokio::task::yield_now().await; } }
+
+/// Write a frame in pieces of `chunk` octets with the reader running in between
+/// (short reads on the client side).
+async fn frame_chunked(w: &mut (impl AsyncWriteExt + Unpin), m: &[u8], chunk: usize) -> bool {
+    let mut v = (m.len() as u16).to_be_bytes().to_vec();
+    v.extend_from_slice(m);
+    for c in v.chunks(chunk.max(1)) {
+        if w.write_all(c).await.is_err() { return false; }
+        for _ in 0..4 { tokio::task::yield_now().await; }
+    }
+    true
+}
 
 /// (id, qr, rcode, qd, an, tc, question tokens) of reply variant v to the request
 /// (id, question of caller k); None = not a DNS message (reader fails).
@@ -1118,22 +1130,34 @@ fn xrep_bytes(x: &XRep, id: u16, q: &Q) -> Vec<u8> {
             }
         }
     }
-    mk_msg(id, true, false, false, x.rcode, [qd, x.recs.len() as u16, 0, 0], &body)
+    let mut ar = 0;
+    if let Some(ka) = x.ka {
+        // OPT record: root owner, type 41, class = payload size, ttl 0, one option (code 11)
+        body.extend_from_slice(&[0, 0, 41, 0x04, 0xd0, 0, 0, 0, 0]);
+        match ka {
+            None => body.extend_from_slice(&[0, 4, 0, 11, 0, 0]),
+            Some(v) => { body.extend_from_slice(&[0, 6, 0, 11, 0, 2]); body.extend_from_slice(&v.to_be_bytes()); }
+        }
+        ar = 1;
+    }
+    mk_msg(id, true, false, false, x.rcode, [qd, x.recs.len() as u16, 0, ar], &body)
 }
 
 fn xrep_event(x: &XRep, id: u16, k: usize) -> String {
     let qs = match x.qmode { b's' => format!("{}", k), b'n' => "900".to_string(), b'b' => "bad".to_string(), _ => "-".to_string() };
     let ans = if x.qmode == b'b' { "bad".to_string() } else if x.recs.is_empty() { "-".to_string() } else {
         x.recs.iter().map(|r| match r { Rec::Soa(s) => format!("s{}", s), Rec::Other => "o".to_string(), Rec::Bad => "e".to_string() }).collect::<Vec<_>>().join(",") };
-    format!("p{}:1:{}:{}:{}:0:{}:{}", id, x.rcode, if x.qmode == b'e' { 0 } else { 1 }, x.recs.len(), qs, ans)
+    let ka = match x.ka { None => "-".to_string(), Some(None) => "n".to_string(), Some(Some(v)) => v.to_string() };
+    format!("p{}:1:{}:{}:{}:0:{}:{}:{}", id, x.rcode, if x.qmode == b'e' { 0 } else { 1 }, x.recs.len(), qs, ans, ka)
 }
 
-async fn run_demux_script(ncallers: usize, idle_zero: bool, steps: Vec<Step>) -> (String, String) {
-    let (client, server) = tokio::io::duplex(1 << 16);
+async fn run_demux_script(ncallers: usize, idle_zero: bool, steps: Vec<Step>, pipe: usize, chunk: usize) -> (String, String) {
+    // a small pipe makes the transport's writes partial, a small chunk its reads short
+    let (client, server) = tokio::io::duplex(pipe);
     let mut cfg = stream::Config::new();
-    cfg.set_response_timeout(Duration::from_secs(10));
-    cfg.set_streaming_response_timeout(Duration::from_secs(10));
-    cfg.set_idle_timeout(if idle_zero { Duration::ZERO } else { Duration::from_secs(100) });
+    cfg.set_response_timeout(Duration::from_secs(600));
+    cfg.set_streaming_response_timeout(Duration::from_secs(600));
+    cfg.set_idle_timeout(if idle_zero { Duration::ZERO } else { Duration::from_secs(3600) });
     let (conn, transport) = stream::Connection::<RequestMessage<Vec<u8>>, RequestMessageMulti<Vec<u8>>>::with_config(client, cfg);
     let th = tokio::spawn(transport.run());
     let (rd, mut wr) = tokio::io::split(server);
@@ -1185,21 +1209,21 @@ async fn run_demux_script(ncallers: usize, idle_zero: bool, steps: Vec<Step>) ->
                 evs.push(format!("{}{}", kind as char, k));
             }
             Step::Reply(k, v) => if wr_open { if let Some(id) = wire_id_q(&seen, &kind_q(*k, kinds[*k])) {
-                wr_open = frame(&mut wr, &reply(*v, id, &kind_q(*k, kinds[*k]), false)).await;
+                wr_open = frame_chunked(&mut wr, &reply(*v, id, &kind_q(*k, kinds[*k]), false), chunk).await;
                 match variant_fields(*v, id, *k) {
-                    Some((i, qr, rc, qd, an, tc, qs)) => evs.push(format!("p{}:{}:{}:{}:{}:{}:{}:{}", i, qr, rc, qd, an, tc, qs, if qs == "bad" { "bad" } else if an == 1 { "o" } else { "-" })),
+                    Some((i, qr, rc, qd, an, tc, qs)) => evs.push(format!("p{}:{}:{}:{}:{}:{}:{}:{}:-", i, qr, rc, qd, an, tc, qs, if qs == "bad" { "bad" } else if an == 1 { "o" } else { "-" })),
                     None => evs.push("f".into()),
                 }
             } },
             Step::ReplyX(k, x) => if wr_open { if let Some(id) = wire_id_q(&seen, &kind_q(*k, kinds[*k])) {
-                wr_open = frame(&mut wr, &xrep_bytes(x, id, &kind_q(*k, kinds[*k]))).await;
+                wr_open = frame_chunked(&mut wr, &xrep_bytes(x, id, &kind_q(*k, kinds[*k])), chunk).await;
                 evs.push(xrep_event(x, id, *k));
             } },
             Step::Cross(a, b) => if wr_open { if let Some(id) = wire_id_q(&seen, &kind_q(*a, kinds[*a])) {
-                wr_open = frame(&mut wr, &reply(b'G', id, &kind_q(*b, kinds[*b]), false)).await;
-                evs.push(format!("p{}:1:0:1:0:0:{}:-", id, b));
+                wr_open = frame_chunked(&mut wr, &reply(b'G', id, &kind_q(*b, kinds[*b]), false), chunk).await;
+                evs.push(format!("p{}:1:0:1:0:0:{}:-:-", id, b));
             } },
-            Step::Junk => if wr_open { wr_open = frame(&mut wr, &reply(b'G', 0x7777, &question(99), false)).await; evs.push(format!("p{}:1:0:1:0:0:99:-", 0x7777)); },
+            Step::Junk => if wr_open { wr_open = frame_chunked(&mut wr, &reply(b'G', 0x7777, &question(99), false), chunk).await; evs.push(format!("p{}:1:0:1:0:0:99:-:-", 0x7777)); },
             Step::ShortFrame => if wr_open { wr_open = frame(&mut wr, &[1, 2, 3]).await; evs.push("f".into()); },
             Step::PartialFrame => if wr_open { let _ = wr.write_all(&[0, 100, 1, 2, 3, 4]).await; let _ = wr.shutdown().await; wr_open = false; evs.push("f".into()); },
             Step::Close => if wr_open { let _ = wr.shutdown().await; wr_open = false; evs.push("f".into()); },
@@ -1228,7 +1252,11 @@ fn gen_xrep(r: &mut Rng) -> XRep {
     let n = r.below(5);
     let mut recs: Vec<Rec> = (0..n).map(|_| match r.below(10) { 0..=3 => Rec::Soa(1), 4 => Rec::Soa(2), _ => Rec::Other }).collect();
     if r.chance(1, 12) { recs.push(Rec::Bad); }
-    XRep { qmode, rcode, recs }
+    // the OPT record is only reachable when everything before it parses; timeouts other than 0 are long
+    // enough (60 s, 6553.5 s) never to expire while a script runs
+    let ka = if qmode != b'b' && !recs.iter().any(|x| matches!(x, Rec::Bad)) && r.chance(1, 4) {
+        Some(match r.below(5) { 0 => None, 1 | 2 => Some(0), 3 => Some(600), _ => Some(65535) }) } else { None };
+    XRep { qmode, rcode, recs, ka }
 }
 
 fn gen_demux_script(r: &mut Rng) -> (usize, bool, Vec<Step>) {
@@ -1246,7 +1274,7 @@ fn gen_demux_script(r: &mut Rng) -> (usize, bool, Vec<Step>) {
             steps.push(Step::SubmitK(submitted, kind)); submitted += 1; continue;
         }
         let k = r.below(submitted as u64) as usize;
-        if kinds[k] != b's' && r.chance(3, 4) || multi && r.chance(1, 8) { steps.push(Step::ReplyX(k, gen_xrep(r))); continue; }
+        if kinds[k] != b's' && r.chance(3, 4) || r.chance(1, 6) { steps.push(Step::ReplyX(k, gen_xrep(r))); continue; }
         match x {
             0..=6 => steps.push(Step::Reply(k, b'G')),
             7 | 8 => steps.push(Step::Reply(k, *r.pick(VARIANTS))),
@@ -1272,7 +1300,8 @@ fn part_demux(out: &mut Out, r: &mut Rng, a: &Args) {
         (4, false, vec![Step::Submit(0), Step::Submit(1), Step::Submit(2), Step::Reply(1, b'G'), Step::Submit(3), Step::Reply(1, b'G'), Step::Reply(3, b'I'), Step::PartialFrame]),
     ];
     let soa = |s: u32| Rec::Soa(s);
-    let xr = |qmode: u8, rcode: u8, recs: Vec<Rec>| XRep { qmode, rcode, recs };
+    let xr = |qmode: u8, rcode: u8, recs: Vec<Rec>| XRep { qmode, rcode, recs, ka: None };
+    let xk = |ka: Option<u16>| XRep { qmode: b's', rcode: 0, recs: vec![], ka: Some(ka) };
     scripts.push((2, false, vec![Step::SubmitK(0, b'x'), Step::ReplyX(0, xr(b's', 0, vec![soa(1), Rec::Other])), Step::ReplyX(0, xr(b'e', 0, vec![Rec::Other, Rec::Other])),
         Step::SubmitK(1, b's'), Step::ReplyX(0, xr(b'e', 0, vec![Rec::Other, soa(1)])), Step::ReplyX(0, xr(b's', 0, vec![Rec::Other])), Step::Reply(1, b'G')]));
     scripts.push((2, false, vec![Step::SubmitK(0, b'y'), Step::ReplyX(0, xr(b's', 0, vec![soa(3), soa(1), Rec::Other, soa(3), Rec::Other])), Step::ReplyX(0, xr(b's', 0, vec![soa(3)]))]));
@@ -1284,13 +1313,20 @@ fn part_demux(out: &mut Out, r: &mut Rng, a: &Args) {
     scripts.push((2, false, vec![Step::SubmitK(0, b'x'), Step::ReplyX(0, xr(b's', 0, vec![soa(1), Rec::Bad])), Step::ReplyX(0, xr(b's', 0, vec![soa(1), soa(1), Rec::Other]))]));
     scripts.push((2, false, vec![Step::SubmitK(0, b'x'), Step::ReplyX(0, xr(b's', 0, vec![soa(1), soa(2)])), Step::ReplyX(0, xr(b's', 0, vec![soa(1)])), Step::ReplyX(0, xr(b'e', 5, vec![]))]));
     scripts.push((2, false, vec![Step::SubmitK(0, b'x'), Step::ReplyX(0, xr(b's', 0, vec![])), Step::ReplyX(0, xr(b's', 0, vec![Rec::Other]))]));
+    // keepalive: a timeout of zero closes the connection as soon as it is idle, a non-zero one keeps it open
+    scripts.push((3, false, vec![Step::SubmitK(0, b's'), Step::ReplyX(0, xk(Some(0))), Step::SubmitK(1, b's')]));
+    scripts.push((3, true, vec![Step::SubmitK(0, b's'), Step::ReplyX(0, xk(Some(600))), Step::SubmitK(1, b's'), Step::Reply(1, b'G'), Step::SubmitK(2, b's')]));
+    scripts.push((3, false, vec![Step::SubmitK(0, b's'), Step::SubmitK(1, b's'), Step::ReplyX(0, xk(Some(0))), Step::Reply(1, b'G'), Step::SubmitK(2, b's')]));
+    scripts.push((3, true, vec![Step::SubmitK(0, b's'), Step::ReplyX(0, xk(None)), Step::SubmitK(1, b's')]));
     for _ in 0..n { scripts.push(gen_demux_script(r)); }
     for (nc, iz, steps) in scripts {
         out.begin("demux script");
         // caller numbers must be unique per script: the corpus re-submits on purpose only in the model-free part
         let mut seen_k = std::collections::HashSet::new();
         let steps: Vec<Step> = steps.into_iter().filter(|s| match s { Step::Submit(k) | Step::SubmitK(k, _) => seen_k.insert(*k), _ => true }).collect();
-        let (case, obs) = rt.block_on(async { match tokio::spawn(run_demux_script(nc.max(6), iz, steps)).await {
+        let pipe = *r.pick(&[1usize << 16, 1 << 16, 64, 23, 8]);
+        let chunk = *r.pick(&[1usize << 16, 1 << 16, 7, 3, 1]);
+        let (case, obs) = rt.block_on(async { match tokio::spawn(run_demux_script(nc.max(6), iz, steps, pipe, chunk)).await {
             Ok(x) => x,
             Err(e) => ("sm 0".to_string(), format!("Panic {}", match e.try_into_panic() { Ok(p) => p.downcast_ref::<String>().cloned().or_else(|| p.downcast_ref::<&str>().map(|s| s.to_string())).unwrap_or_default(), Err(_) => String::new() })),
         } });
@@ -1434,7 +1470,11 @@ fn part_selection(out: &mut Out, r: &mut Rng, a: &Args) {
             if r.chance(2, 3) { pk.push(Pkt { off: 20 + r.below(25), v: *r.pick(b"GGGHEX") }); }
             Attempt { fault: if r.chance(1, 10) { b'c' } else { b'-' }, pkts: pk }
         }).collect() };
-        let (s1, s2) = (mk(r), mk(r));
+        let (mut s1, mut s2) = (mk(r), mk(r));
+        // failing upstreams: one side refuses every connect or stays silent, the other answers
+        let dead = |kind: u64| -> Vec<Attempt> { (0..2).map(|_| Attempt { fault: if kind == 0 { b'c' } else { b'-' }, pkts: vec![] }).collect() };
+        let good = || -> Vec<Attempt> { (0..2).map(|_| Attempt { fault: b'-', pkts: vec![Pkt { off: 5, v: b'G' }] }).collect() };
+        match k / 2 { 0 => { s1 = dead(0); s2 = good(); } 1 => { s1 = good(); s2 = dead(0); } 2 => { s1 = dead(1); s2 = good(); } 3 => { s1 = dead(0); s2 = dead(1); } _ => {} }
         let case = format!("{} up1={} up2={}", if lb { "load_balancer" } else { "redundant" },
             s1.iter().map(attempt_tok).collect::<Vec<_>>().join("|"), s2.iter().map(attempt_tok).collect::<Vec<_>>().join("|"));
         out.begin(&case);
